@@ -646,20 +646,20 @@ _ALL_NAMED = ["bb84", "chsh", "mub", "nlchsh1", "nlchsh2"]
 _T = 60.0
 
 SUBCHECKS = [
-    SubCheck("unentangled_bruteforce", check_unentangled, _mix(_named_game(_ALL_NAMED), _random_game()), nt_game, quick=320, thorough=4000, case_timeout=_T),
-    SubCheck("reps2_unentangled", check_reps2, _reps2_case, nt_reps2, quick=32, thorough=320, case_timeout=_T),
-    SubCheck("ns_value", check_ns, _mix(_named_game(_ALL_NAMED), _random_game(), 1, 3), nt_game, quick=128, thorough=1400, case_timeout=_T),
+    SubCheck("unentangled_bruteforce", check_unentangled, _mix(_named_game(_ALL_NAMED), _random_game()), nt_game, quick=400, thorough=4000, shards=8, case_timeout=_T),
+    SubCheck("reps2_unentangled", check_reps2, _reps2_case, nt_reps2, quick=32, thorough=320, shards=4, case_timeout=_T),
+    SubCheck("ns_value", check_ns, _mix(_named_game(_ALL_NAMED), _random_game(), 1, 3), nt_game, quick=128, thorough=1300, case_timeout=_T),
     SubCheck("npa_sound_square", check_npa_sound, _npa_square, nt_game, quick=96, thorough=1000, case_timeout=_T),
     SubCheck("npa_sound_rect", check_npa_sound, _npa_rect, nt_game, quick=96, thorough=1000, case_timeout=_T),
-    SubCheck("npa_invariance", check_npa_invariance, _inv_case, nt_inv, quick=48, thorough=500, case_timeout=_T),
+    SubCheck("npa_invariance", check_npa_invariance, _inv_case, nt_inv, quick=48, thorough=480, shards=8, case_timeout=_T),
     SubCheck("seesaw_r_eq_B", check_seesaw, _seesaw_rb, nt_game, quick=64, thorough=640, case_timeout=_T),
-    SubCheck("seesaw_r_ne_B", check_seesaw, _seesaw_rneb, nt_game, quick=32, thorough=320, case_timeout=_T),
-    SubCheck("seesaw_le_npa", check_seesaw_le_npa, _seesaw_npa, nt_game, quick=48, thorough=500, case_timeout=_T),
-    SubCheck("r1_nonlocal_game", check_r1, _r1, nt_game, quick=48, thorough=500, case_timeout=_T),
-    SubCheck("hedging_real", check_hedging, lambda: _hedge_case(False), nt_hedge, quick=96, thorough=1500, case_timeout=_T),
-    SubCheck("hedging_complex", check_hedging, lambda: _hedge_case(True), nt_hedge, quick=96, thorough=1500, case_timeout=_T),
-    SubCheck("clone_real", check_clone, lambda: _clone_case(False, 1), nt_clone, quick=80, thorough=800, case_timeout=_T),
-    SubCheck("clone_real_reps2", check_clone, lambda: _clone_case(False, 2), nt_clone, quick=16, thorough=160, case_timeout=_T),
-    SubCheck("clone_complex", check_clone, lambda: _clone_case(True, 1), nt_clone, quick=80, thorough=800, case_timeout=_T),
-    SubCheck("clone_complex_reps2", check_clone, lambda: _clone_case(True, 2), nt_clone, quick=16, thorough=160, case_timeout=_T),
+    SubCheck("seesaw_r_ne_B", check_seesaw, _seesaw_rneb, nt_game, quick=32, thorough=320, shards=8, case_timeout=_T),
+    SubCheck("seesaw_le_npa", check_seesaw_le_npa, _seesaw_npa, nt_game, quick=48, thorough=480, shards=8, case_timeout=_T),
+    SubCheck("r1_nonlocal_game", check_r1, _r1, nt_game, quick=48, thorough=480, shards=8, case_timeout=_T),
+    SubCheck("hedging_real", check_hedging, lambda: _hedge_case(False), nt_hedge, quick=128, thorough=1500, shards=8, case_timeout=_T),
+    SubCheck("hedging_complex", check_hedging, lambda: _hedge_case(True), nt_hedge, quick=128, thorough=1500, shards=8, case_timeout=_T),
+    SubCheck("clone_real", check_clone, lambda: _clone_case(False, 1), nt_clone, quick=96, thorough=1000, shards=4, case_timeout=_T),
+    SubCheck("clone_real_reps2", check_clone, lambda: _clone_case(False, 2), nt_clone, quick=16, thorough=160, shards=8, case_timeout=_T),
+    SubCheck("clone_complex", check_clone, lambda: _clone_case(True, 1), nt_clone, quick=96, thorough=1000, shards=4, case_timeout=_T),
+    SubCheck("clone_complex_reps2", check_clone, lambda: _clone_case(True, 2), nt_clone, quick=24, thorough=240, shards=8, case_timeout=_T),
 ]
